@@ -1,6 +1,4 @@
-import PoseVerif.Model.Represent
-import PoseVerif.Proofs.HeaderShape
-import PoseVerif.Props.C13
+import PoseVerif.Proofs.C17Lemmas
 /-!
 # C17 — feature representations equal their geometric definition
 
@@ -10,20 +8,6 @@ Clauses about masks and NaN hold for any scalar record; the formula clauses are 
 namespace PoseVerif.Props.C17
 open PoseVerif PoseVerif.Props.C13
 variable {S : Type}
-
-def mkPoint (vs : List S) (ok : Bool) : List (MV S) := vs.map fun x => (x, ok)
-
-/-! ### missing input ⇒ exactly 0 -/
-
-theorem all_zipWith_false (f : MV S → MV S → MV S) (hf : ∀ a b, (f a b).2 = (a.2 && b.2)) (a b : List S) (oka okb : Bool)
-    (hne : 0 < min a.length b.length) (hok : (oka && okb) = false) : (List.zipWith f (mkPoint a oka) (mkPoint b okb)).all (·.2) = false := by
-  cases a with
-  | nil => simp at hne
-  | cons x xs =>
-    cases b with
-    | nil => simp at hne
-    | cons y ys => simp [mkPoint, hf, hok]
-
 /-- distance: 0 as soon as one of the two points is missing -/
 theorem distance_missing_zero (sc : Scalar S) (a b : List S) (oka okb : Bool) (hne : 0 < min a.length b.length) (hok : (oka && okb) = false) :
     distanceRep sc (mkPoint a oka) (mkPoint b okb) = sc.zero := by
@@ -93,8 +77,6 @@ theorem innerAngle_missing_zero (sc : Scalar S) (h0 : sc.isNaN sc.zero = false) 
           cases oka <;> cases okb <;> cases okc <;> simp_all
         simp only [mvZeroFilled, mvUn, hfl, Bool.false_eq_true, if_false, h0]
 
-/-! ### never NaN: the last step of each representation removes it (given that 0 is not NaN) -/
-
 theorem innerAngle_not_nan (sc : Scalar S) (h0 : sc.isNaN sc.zero = false) (acosF : S → S) (p1 p2 p3 : List (MV S)) :
     sc.isNaN (innerAngleRep sc acosF p1 p2 p3) = false := by
   unfold innerAngleRep
@@ -121,30 +103,6 @@ theorem angle_argument_not_nan (sc : Scalar S) (h0 : sc.isNaN sc.zero = false) (
     · exact h0
     · rename_i h; simpa using h
   · exact h0
-
-/-! ### the formulas, over ℝ. Three points of equal dimension are given as one list of coordinate triples `(p1_d, p2_d, p3_d)`. -/
-
-section formulas
-
-@[simp] theorem RS_isNaN (x : ℝ) : RS.isNaN x = false := rfl
-
-abbrev c1 (l : List (ℝ × ℝ × ℝ)) : List ℝ := l.map (·.1)
-abbrev c2 (l : List (ℝ × ℝ × ℝ)) : List ℝ := l.map (·.2.1)
-abbrev c3 (l : List (ℝ × ℝ × ℝ)) : List ℝ := l.map (·.2.2)
-
-theorem sum_div_const (l : List ℝ) (k : ℝ) : (l.map fun x => x / k).sum = l.sum / k := by
-  induction l with
-  | nil => simp
-  | cons x xs ih => simp only [List.map_cons, List.sum_cons, ih]; rw [add_div]
-
-/-- the masked distance of two valid points is `(√Σ(x − y)², valid)` -/
-theorem mvDistance_valid {α : Type} (l : List α) (f g : α → ℝ) :
-    mvDistance RS (mkPoint (l.map f) true) (mkPoint (l.map g) true) = (Real.sqrt ((l.map fun t => (f t - g t) * (f t - g t)).sum), true) := by
-  unfold mvDistance mvUn mvSum mkPoint
-  simp only [List.zipWith_map_left, List.zipWith_map_right, List.zipWith_self, List.map_map, mvBin, mvUn, sumList_eq, RS_sqrt, List.all_map, Function.comp_def]
-  refine Prod.ext ?_ ?_
-  · simp only [RS_mul, RS_sub]
-  · simp
 
 /-- **distance** = Euclidean norm of the difference -/
 theorem distance_formula (l : List (ℝ × ℝ × ℝ)) :
@@ -176,16 +134,6 @@ theorem innerAngle_formula (acosF : ℝ → ℝ) (l : List (ℝ × ℝ × ℝ)) 
     rw [List.map_map]; apply List.map_congr_left; intro t _; simp only [Function.comp_def]; rw [div_mul_div_comm]
   rw [this, sum_div_const]
   rw [if_pos (hall (fun _ => true && true) (fun _ => rfl))]
-
-theorem sum_sq_diff (l : List (ℝ × ℝ × ℝ)) :
-    (l.map fun t => (t.1 - t.2.2) * (t.1 - t.2.2)).sum =
-      (l.map fun t => (t.1 - t.2.1) * (t.1 - t.2.1)).sum + (l.map fun t => (t.2.2 - t.2.1) * (t.2.2 - t.2.1)).sum
-        - 2 * (l.map fun t => (t.1 - t.2.1) * (t.2.2 - t.2.1)).sum := by
-  induction l with
-  | nil => simp
-  | cons t ts ih => simp only [List.map_cons, List.sum_cons, ih]; ring
-
-theorem sqrt_four : Real.sqrt 4 = 2 := by rw [show (4 : ℝ) = 2 * 2 by norm_num]; exact Real.sqrt_mul_self (by norm_num)
 
 /-- **point–line distance**: Heron's height over the side `p2 p3` is the distance from `p1` to the line through `p2` and `p3`,
     `√(|u|²|w|² − (u·w)²) / |w|` with `u = p1 − p2`, `w = p3 − p2` (any number of coordinates), for distinct `p2 ≠ p3`. -/
@@ -219,12 +167,6 @@ theorem pointLine_formula (l : List (ℝ × ℝ × ℝ)) :
     rw [e, haa, hbb, hcc]; ring
   rw [key, Real.sqrt_div' _ (by norm_num : (0 : ℝ) ≤ 4), sqrt_four]
   ring
-
-end formulas
-
-/-! ### the assembled representation: which points, how many rows, in which order -/
-
-section layout
 
 /-- the limb index lists: every limb `(a, b)` of every component, shifted by the component's offset, components in header order -/
 theorem limbPoints_spec (comps : List Comp) :
@@ -276,13 +218,6 @@ theorem mem_trianglePoints (l1 l2 : List Nat) (t : Nat × Nat × Nat) :
   · rintro ⟨a, ha, b, ⟨hb, hab⟩, rfl⟩; exact ⟨a, ha, b, hb, hab, rfl⟩
   · rintro ⟨a, ha, b, hb, hab, rfl⟩; exact ⟨a, ha, b, ⟨hb, hab⟩, rfl⟩
 
-theorem flatten_length_const {α : Type} (bs : List (List α)) (k : Nat) (h : ∀ x ∈ bs, x.length = k) : bs.flatten.length = bs.length * k := by
-  induction bs with
-  | nil => simp
-  | cons x xs ih =>
-    simp only [List.flatten_cons, List.length_append, List.length_cons, h x (by simp), ih fun y hy => h y (List.mem_cons_of_mem _ hy), Nat.add_mul]
-    omega
-
 /-- **the advertised output size is the number of rows**: `n1` point blocks of `points × letters` rows, `n2` limb blocks, `n3` triple blocks -/
 theorem output_size_is_row_count {α : Type} (comps : List Comp) (bs1 bs2 bs3 : List (List α))
     (h1 : ∀ x ∈ bs1, x.length = totalPts comps * ((comps.headD default).format).length)
@@ -290,19 +225,6 @@ theorem output_size_is_row_count {α : Type} (comps : List Comp) (bs1 bs2 bs3 : 
     (h3 : ∀ x ∈ bs3, x.length = (trianglePoints (limbPoints comps).1 (limbPoints comps).2).length) :
     (bs1 ++ bs2 ++ bs3).flatten.length = repOutputSize comps bs1.length bs2.length bs3.length := by
   simp only [List.flatten_append, List.length_append, flatten_length_const _ _ h1, flatten_length_const _ _ h2, flatten_length_const _ _ h3, repOutputSize, totalPts]
-
-theorem flatMap_getD_block {α β : Type} (f : α → List β) (k : Nat) (hk : ∀ x, (f x).length = k) (d : β) :
-    ∀ (l : List α) (i j : Nat) (hi : i < l.length), j < k → (l.flatMap f).getD (i * k + j) d = (f l[i]).getD j d
-  | [], i, j, hi, _ => absurd hi (by simp)
-  | x :: xs, 0, j, _, hj => by
-    simp only [List.flatMap_cons, Nat.zero_mul, Nat.zero_add, List.getElem_cons_zero, List.getD_eq_getElem?_getD]
-    rw [List.getElem?_append_left (by rw [hk]; exact hj)]
-  | x :: xs, i + 1, j, hi, hj => by
-    have ih := flatMap_getD_block f k hk d xs i j (by simpa using hi) hj
-    simp only [List.flatMap_cons, List.getElem_cons_succ, List.getD_eq_getElem?_getD] at ih ⊢
-    rw [List.getElem?_append_right (by rw [hk]; simp only [Nat.add_mul]; omega), hk, ← ih]
-    congr 2
-    simp only [Nat.add_mul]; omega
 
 /-- **points block layout**: row `point · dims + dim` holds coordinate `dim` of point `point` over (batch, len), zero-filled -/
 theorem pointsRep_row (sc : Scalar S) [Inhabited S] (pts : List (List (List (List (MV S))))) (dims p d : Nat) (hp : p < pts.length) (hd : d < dims) :
@@ -333,7 +255,5 @@ theorem groupEmbeds_entry [Inhabited S] (blocks : List (List (List (List S)))) (
   rw [h1, h2]
   refine ⟨?_, by simp, by simp, by simp⟩
   simp [List.getD_eq_getElem?_getD, List.getElem?_eq_getElem he]
-
-end layout
 
 end PoseVerif.Props.C17
